@@ -582,6 +582,53 @@ class _NP:
                 rows.append([x for m in ms for x in m.rows[i]])
         return SymMat(rows)
 
+    @staticmethod
+    def full(shape, value, dtype=None):
+        n, m = _NP._shape(shape)
+        return SymMat([[value] * m for _ in range(n)])
+
+    @staticmethod
+    def ones_like(a, dtype=None):
+        return _NP.ones(a.shape)
+
+    @staticmethod
+    def diag(v, k=0):
+        if k != 0:
+            raise Unsupported("UNSUPPORTED np.diag with an offset")
+        if isinstance(v, SymMat):
+            raise Unsupported("UNSUPPORTED np.diag of a 2-D array (1-D result)")
+        v = list(v)
+        return SymMat([[v[i] if i == j else 0 for j in range(len(v))] for i in range(len(v))])
+
+    @staticmethod
+    def fill_diagonal(a, val):
+        for i in range(min(a.shape)):
+            a[i, i] = val
+
+    @staticmethod
+    def kron(a, b):
+        a = a if isinstance(a, SymMat) else _NP.array(a)
+        b = b if isinstance(b, SymMat) else _NP.array(b)
+        (n, m), (p, q) = a.shape, b.shape
+        return SymMat([[a.rows[i // p][j // q] * b.rows[i % p][j % q] for j in range(m * q)] for i in range(n * p)])
+
+    @staticmethod
+    def concatenate(parts, axis=0):
+        ms = [x if isinstance(x, SymMat) else _NP.array(x) for x in parts]
+        if axis in (0, -2):
+            return _NP.block([[x] for x in ms])
+        if axis in (1, -1):
+            return _NP.block([ms])
+        raise Unsupported("UNSUPPORTED np.concatenate axis")
+
+    @staticmethod
+    def vstack(parts):
+        return _NP.concatenate(parts, 0)
+
+    @staticmethod
+    def hstack(parts):
+        return _NP.concatenate(parts, 1)
+
     def __getattr__(self, name):
         raise Unsupported(f"UNSUPPORTED numpy attribute np.{name} in traced code")
 
